@@ -18,7 +18,7 @@ run_stage(ctx, prefixes) with prefixes a list out of ["C14_", "C02_"]:
 
 Signature of a violation: "<first failing predicate> <class>", class built by TLC-computed facts of
 the failing step: the call, the deviation real - truth, and the context flags
-  ghost-readd   the pod re-added by unevict still has its Consolidate ghost accounted
+  ghost-readd   unevict AddTask()s a pod whose terminating copy (left by a move to another GPU group) is still accounted
   pipegpu       a nominated (Pipelined) fraction or whole-GPU pod is on the node before or after the call
   plain         none of the above
 """
@@ -52,7 +52,7 @@ MODELS = {
            ["g1", "g2", "g3", "g4", "g5"], ["Running", "Releasing", "Bound"], 3, 8),
 }
 
-DUMMY = dict(NGpu=1, GpuMem=100, NodeCpu=1, MaxPods=1, Kind="<<>>", GroupSeq="<<>>", SnapSt="{}", MaxSnap=0, MaxOps=0, Excl="{}")
+DUMMY = dict(NGpu=1, GpuMem=100, NodeCpu=1, MaxPods=1, Kind="<<>>", GroupSeq="<<>>", SnapSt="{}", MaxSnap=0, MaxOps=0)
 
 
 def tla_str(s):
@@ -68,7 +68,7 @@ def model_constants(m):
     node, kinds, groups, snapst, maxsnap, maxops = m
     return dict(NGpu=node["n"], GpuMem=node["gpumem"], NodeCpu=node["cpu"], MaxPods=node["maxpods"],
                 Kind=tla_kinds(kinds), GroupSeq="<< " + ", ".join(map(tla_str, groups)) + " >>",
-                SnapSt="{" + ", ".join(map(tla_str, snapst)) + "}", MaxSnap=maxsnap, MaxOps=maxops, Excl="{}")
+                SnapSt="{" + ", ".join(map(tla_str, snapst)) + "}", MaxSnap=maxsnap, MaxOps=maxops)
 
 
 def selected(prefixes, names):
